@@ -148,6 +148,16 @@ Definition fresh_colb (d : doc) (T b : name) : bool :=
   forallb (fun tb => forallb (fun co => negb (pair_eqb (tname tb, cname co) (T, b))) (tcols tb)) d
   && all_formulas d (fun tb _ f => negb (mem_pair (T, b) (col_uses d (tname tb) [] f))).
 
+Definition group_okb (d : doc) (T a b : name) : bool :=
+  (negb (name_eqb a GROUP) && negb (name_eqb b GROUP)) ||
+  forallb (fun tb => forallb (fun co => negb (is_grp co && name_eqb (tname tb) T
+                                              && (name_eqb (cname co) a || name_eqb (cname co) b))) (tcols tb)) d.
+
+(* what the engine protects since the fix: manualSort, and group in a summary table *)
+Definition MANUALSORT : name := [109; 97; 110; 117; 97; 108; 83; 111; 114; 116].
+Definition protected_col (d : doc) (T a : name) : bool :=
+  name_eqb a MANUALSORT || (name_eqb a GROUP && match summary_source d T with Some _ => true | None => false end).
+
 Fixpoint val_plainb (v : val) : bool :=
   match v with
   | VRec _ _ => false
